@@ -576,9 +576,35 @@ fn selection_family(cx: &mut Ctx) {
 fn handler_family(st: &mut Stats) {
     // proxy_handler end to end under the default schedule: prefix stripping, blacklist, random mode
     let mut s = Stats::default();
-    for (matches, uri, want_uri) in [("/api/*", "/api/x/y", "/x/y"), ("/api*", "/api", "/"), ("/*", "/a", "/a"), ("/p/*", "/p/", "/"), ("/p/*", "/p/q?z", "/q")] {
+    // (route, request target, what the upstream must be asked for, full product of mode x blacklist?)
+    let mut combos: Vec<(String, String, String, bool)> = [("/api/*", "/api/x/y", "/x/y"), ("/api*", "/api", "/"), ("/*", "/a", "/a"), ("/p/*", "/p/", "/"), ("/p/*", "/p/q?z", "/q")].iter().map(|(a, b, c)| (a.to_string(), b.to_string(), c.to_string(), true)).collect();
+    // generated: the route's literal part is stripped exactly once, also when the rest of the path repeats it
+    for route in ["/api/*", "/api*", "/*", "/p/*", "/a*", "/a/*", "/static/*"] {
+        let lit = route.split('*').next().unwrap();
+        let bare = lit.trim_matches('/');
+        let mut tails: Vec<String> = vec!["".into(), "x".into(), "x/y".into(), "/x".into(), "//x".into(), format!("{}/v1", bare), format!("{}v1", lit), format!("/{}", bare), format!("{}{}b", lit, lit), "q?z".into()];
+        tails.dedup();
+        for t in tails {
+            let uri = format!("{}{}", lit, t);
+            let path = uri.split('?').next().unwrap();
+            let mut want: String = path.chars().skip(lit.chars().count()).collect();
+            if !want.starts_with('/') {
+                want.insert(0, '/');
+            }
+            if !combos.iter().any(|c| c.0 == route && c.1 == uri) {
+                combos.push((route.to_string(), uri, want, false));
+            }
+        }
+    }
+    for (matches, uri, want_uri, full) in combos.iter().map(|c| (c.0.as_str(), c.1.as_str(), c.2.as_str(), c.3)) {
         for mode in ["round-robin", "random"] {
+            if !full && mode == "random" {
+                continue;
+            }
             for (listed, origin_hdr) in [(false, None), (true, None), (true, Some("203.0.113.5")), (false, Some("203.0.113.5"))] {
+                if !full && (listed || origin_hdr.is_some()) {
+                    continue;
+                }
                 s.evaluations += 1;
                 s.states += 1;
                 s.transitions += 1;
